@@ -32,7 +32,7 @@ theorem lines_in_category (rf : List Str) (db : DB) (cat : Str) (ns : List Str) 
 
 /-- a name that is not blank is never dropped: non-gss names are printed iff they contain a non-space character -/
 theorem printed_plain (cat n : Str) (h : ¬ (cat = kexC ∧ Text.startsWith n (s "gss-") = true)) :
-    printed cat n = !(Text.strip n).isEmpty := by
+    printed cat n = !(Text.stripU n).isEmpty := by
   unfold printed gssNormalize
   rw [if_neg h]
 
